@@ -133,6 +133,19 @@ def gen_matrix(rng, N, alphabet=None, symmetric=True, tie_free=False):
 
 def gen_instance(rng, nmax=10, nu=0, m=0, tie_free=False, kinds=("feat", "mat", "lattice", "feat", "mat", "lattice", "tiny", "sparse")):
     kind = rng.choice(kinds)
+    if kind == "asym":
+        # non-symmetric dissimilarities (C03 quantifies over every distance function): d(train, query) is what counts
+        n = rng.randint(2, nmax)
+        labels = gen_labels(rng, n)
+        metric = rng.choice(["pearson", "neyman", "kullback_leibler", "k_divergence", "statistic"])
+        dim = rng.randint(2, 4)
+        X = [[rng.uniform(0.05, 9) for _ in range(dim)] for _ in range(n + nu + m)]
+        if metric in ("kullback_leibler", "k_divergence"):
+            X = [[v / sum(r) for v in r] for r in X]
+        D = metric_matrix(metric, X)
+        if not any(v != v for r in D for v in r):
+            return Instance("asym", X, labels, D, nu, m, metric)
+        kind = "feat"
     if kind == "sparse":
         # histogram-like rows: 5-8 non-negative bins, many of them exactly 0, under the decorated ratio metrics; somewhat
         # larger sets, since shared empty bins are what makes such data special
@@ -179,11 +192,25 @@ def gen_instance(rng, nmax=10, nu=0, m=0, tie_free=False, kinds=("feat", "mat", 
     if kind == "mat":
         if tie_free:
             alphabet = None
+            if rng.random() < 0.3:
+                # distinct weights that are ALMOST equal (a few 1e-10 apart, relative): the algorithms compare exactly,
+                # a tolerance would merge them
+                base_ = [float(v) for v in rng.sample(range(1, 9), 2)]
+                N_ = n + nu + m
+                vals = [b_ * (1.0 + j_ * rng.choice([7e-11, 2e-10, 3e-10])) for b_ in base_ for j_ in range(N_ * N_)]
+                vals = sorted(set(vals)); rng.shuffle(vals)
+                D = [[0.0] * N_ for _ in range(N_)]
+                for a_ in range(N_):
+                    for b_ in range(a_ + 1, N_):
+                        D[a_][b_] = D[b_][a_] = vals.pop()
+                return Instance("neartie", None, labels, D, nu, m, None)
         else:
             k = rng.choice([1, 2, 3, 0])
             alphabet = [float(v) for v in rng.sample(range(1, 9), k)] if k else None
             if alphabet and rng.random() < 0.2:
                 alphabet.append(0.0)   # zero distances between distinct samples
+            if alphabet and rng.random() < 0.25:
+                alphabet = alphabet + [v * (1.0 + 2e-10) for v in alphabet if v > 0]   # near-ties next to exact ties
         D = gen_matrix(rng, n + nu + m, alphabet)
         return Instance("mat", None, labels, D, nu, m, None)
     metric = rng.choice(PLAIN_METRICS + POS_METRICS) if (kind == "feat" or rng.random() < 0.4) else rng.choice(PLAIN_METRICS)
